@@ -239,6 +239,13 @@ class Prose(HypPart):
         except Exception as exc:
             return Out(Fail('passes-through', 'raised ' + exc_sig(exc), lines=lines, error=repr(exc)), nt=nt, labels=labels)
         want = expected_html(lines)
+        if got == want:
+            # the same paragraph supplied as a list of lines without terminators (how the lines of a case are held here)
+            import mistletoe
+            try:
+                got = mistletoe.markdown(list(lines))
+            except Exception as exc:
+                return Out(Fail('passes-through', 'raised (list of lines) ' + exc_sig(exc), lines=lines, error=repr(exc)), nt=nt, labels=labels)
         if got != want:
             kind = 'block structure' if not (got.startswith('<p>') and got.count('<p>') == 1 and got.endswith('</p>\n')) else 'inline'
             return Out(Fail('passes-through', kind, lines=lines, expected=want, actual=got), nt=nt, labels=labels)
